@@ -14,6 +14,9 @@ from mc import world as W
 from mc import localchecks
 from mc.localchecks import expand as local_expand  # noqa: F401 (looked up by name in the workers)
 
+from mc import freshtier
+from mc.freshtier import compare_batch as fresh_compare_batch  # noqa: F401
+
 ID = "C05"
 LEVEL = "model_checking"
 
@@ -204,6 +207,8 @@ def run(ctx):
     local_done = localchecks.run_local(ctx, me, ID, [("fork", 3)] if ctx.tier == "quick" else [("fork", 5), ("twocomp", 4)])
     ctx.notes.setdefault("coverage_extra", {})["local_backend"] = local_done
     ctx.traces_validated = ctx.acc.extra["transitions"]
+    ctx.pmap(me, "fresh_compare_batch", freshtier.items([(["status"], None), (["run", "-d"], None), (["run"], None), (["run", "B"], None), (["status", "-s", "shouldrun", "--endpoints"], None), (["info"], None)], backends=("slurm", "sge", "lsf") if ctx.tier != "quick" else ("slurm", "lsf")), chunk=2)
+    ctx.notes.setdefault("coverage_extra", {})["fresh_process_cases"] = ctx.acc.extra["fresh_processes"]
     ctx.rule = ("state = canonical world (file ranks+contents, tracked-job descriptors, hash records, logs); in each state every selection x "
                 "{status, run -d, run} and the filter/format alphabet are executed on the real CLI; non-trivial = distinct canonical state")
     ctx.bound = dict(configs=done)
@@ -213,6 +218,14 @@ def run(ctx):
 
 
 def replay(case):
+    if case.get("kind") == "fresh":
+        from mc.runner import Acc
+
+        acc = Acc()
+        for it in freshtier.items([(["status"], None), (["run", "-d"], None), (["run"], None), (["run", "B"], None), (["status", "-s", "shouldrun", "--endpoints"], None), (["info"], None)]):
+            if it[0] == case["label"] and it[2] == case["args"]:
+                freshtier.compare_batch(acc, [it])
+        return acc.violations
     if case.get("kind") == "local":
         return localchecks.replay(case)
     from mc.runner import Acc
